@@ -116,11 +116,32 @@ class C15:
             parts.append(["\n" + rng.choice(PIECES), rng.choice(STYLES)])
         return parts
 
+    def _gen_kw(self, rng):
+        """Formatting options of print(): they change which characters are written."""
+        kw = {}
+        r = rng.random()
+        if r < 0.25:
+            kw["end"] = rng.choice(["", " ", "\n\n", ""])
+        elif r < 0.35:
+            kw["soft_wrap"] = True
+        elif r < 0.45:
+            kw["justify"] = rng.choice(["left", "center", "right", "full"])
+        elif r < 0.55:
+            kw["no_wrap"] = True
+            kw["overflow"] = rng.choice(["crop", "ellipsis", "fold", "ignore"])
+        elif r < 0.6:
+            kw["crop"] = False
+        elif r < 0.66:
+            kw["width"] = rng.choice([10, 20, 33])
+        elif r < 0.7:
+            kw["markup"] = False
+        return kw
+
     def _gen_inner(self, rng, t, cnt, depth):
         """What may stand inside a capture block: any output operation, also buffered blocks."""
         r = rng.random()
         if r < 0.45:
-            return ["print", self._gen_text(rng, t, cnt), ""]
+            return ["print", self._gen_text(rng, t, cnt), "", self._gen_kw(rng) if rng.random() < 0.3 else {}]
         if r < 0.55:
             cnt[0] += 1
             return ["log", "K%d_%dz %s" % (t, cnt[0], rng.choice(PIECES[:9]))]
@@ -144,7 +165,7 @@ class C15:
     def _gen_op(self, rng, t, cnt, single):
         r = rng.random()
         if r < 0.4:
-            return ["print", self._gen_text(rng, t, cnt), rng.choice(STYLES) if rng.random() < 0.2 else ""]
+            return ["print", self._gen_text(rng, t, cnt), rng.choice(STYLES) if rng.random() < 0.2 else "", self._gen_kw(rng) if rng.random() < 0.3 else {}]
         if r < 0.47:
             cnt[0] += 1
             return ["log", "K%d_%dz %s" % (t, cnt[0], rng.choice(PIECES[:9]))]
@@ -223,6 +244,10 @@ class C15:
                         c = copy.deepcopy(case)
                         del c["threads"][i][j][1][k]
                         yield c
+                if op[0] == "print" and len(op) > 3 and op[3]:
+                    c = copy.deepcopy(case)
+                    c["threads"][i][j][3] = {}
+                    yield c
                 if op[0] == "print":
                     for k, part in enumerate(op[1]):
                         if part[1]:
@@ -299,7 +324,10 @@ class Prog:
     def _emit(self, con, op):
         k = op[0]
         if k == "print":
-            con.print(self._text(op[1]), style=op[2] or None)
+            kw = op[3] if len(op) > 3 else {}
+            if kw:
+                self.probes["prints_with_options"] = self.probes.get("prints_with_options", 0) + 1
+            con.print(self._text(op[1]), style=op[2] or None, **kw)
         elif k == "markup":
             con.print(op[1])
         elif k == "log":
